@@ -36,17 +36,17 @@ type pathEnd struct {
 
 // Violation is one counterexample found on a path.
 type Violation struct {
-	Kind   string   // "assert", "panic", "runaway", "alloc", "unsafe-oob"
-	ID     string   // assertion id / panic message class
-	Site   string   // source position (file:line) of the failing statement
-	Func   string   // function containing the site
-	Stmt   string   // normalised source text of the failing statement, if available
-	Detail string   // free text
-	Stack  []Frame  // call stack at the failure, innermost first (function, site, statement)
-	Script []uint64 // nondet results in call order (replay input)
+	Kind   string     // "assert", "panic", "runaway", "alloc", "unsafe-oob"
+	ID     string     // assertion id / panic message class
+	Site   string     // source position (file:line) of the failing statement
+	Func   string     // function containing the site
+	Stmt   string     // normalised source text of the failing statement, if available
+	Detail string     // free text
+	Stack  []Frame    // call stack at the failure, innermost first (function, site, statement)
+	Script []uint64   // nondet results in call order (replay input)
 	Alt    [][]uint64 // further witnesses of the same site (other paths), tried if the first does not reproduce
-	Notes  []string // harness notes on this path
-	Count  int      // number of paths with the same signature
+	Notes  []string   // harness notes on this path
+	Count  int        // number of paths with the same signature
 }
 
 type Frame struct {
@@ -108,6 +108,8 @@ type Stats struct {
 	RewriteChecks int
 	BoundCuts     int
 	LemmaQueries  int
+	ModelHits     int
+	ForkSites     map[string]int
 }
 
 type Options struct {
@@ -142,6 +144,9 @@ type Engine struct {
 	sdepth    int // number of decisions whose constraint is on the solver stack
 	pc        []*term.Term
 	pcLits    map[*term.Term]bool
+	mdl       map[string]uint64                // a model of the current path condition (nil = none cached)
+	altMdl    map[*term.Term]map[string]uint64 // models found for alternatives not (yet) taken
+	mdlMemo   map[*term.Term]uint64
 	nondets   []nondetRec
 	notes     []string
 	undo      []undoRec
@@ -165,6 +170,7 @@ type Engine struct {
 	curPos       []ssa.Instruction
 	fset         posResolver
 	srcCache     map[string][]string
+	lastModel    map[string]uint64
 	InitWarnings []string
 	MaxWitness   int
 	lemmaCache   map[string]bool
@@ -365,6 +371,8 @@ func (e *Engine) resetPath() {
 	e.tpos = 0
 	e.pc = e.pc[:0]
 	e.pcLits = map[*term.Term]bool{}
+	e.mdl = nil
+	e.altMdl = map[*term.Term]map[string]uint64{}
 	e.nondets = e.nondets[:0]
 	e.notes = e.notes[:0]
 	e.nextObj = e.baseObj
@@ -517,6 +525,22 @@ func (e *Engine) assertDecision(idx int, c *term.Term) {
 func (e *Engine) addPC(c *term.Term) {
 	e.pc = append(e.pc, c)
 	e.noteLit(c, true, 0)
+	// keep a cached model only if it still satisfies the path condition
+	if e.mdl != nil && !e.evalUnder(e.mdl, c) {
+		e.mdl = nil
+	}
+	if e.mdl == nil {
+		if m, ok := e.altMdl[c]; ok {
+			e.mdl = m
+		}
+	}
+	if len(e.altMdl) > 0 {
+		e.altMdl = map[*term.Term]map[string]uint64{}
+	}
+}
+
+func (e *Engine) evalUnder(m map[string]uint64, c *term.Term) bool {
+	return term.Eval(c, m, map[*term.Term]uint64{}) == 1
 }
 
 func (e *Engine) noteLit(c *term.Term, val bool, depth int) {
@@ -579,9 +603,21 @@ func (e *Engine) feasible(c *term.Term) (bool, bool) {
 	if e.sdepth != len(e.trace) {
 		panic(internalf("feasible: solver stack %d behind trace %d", e.sdepth, len(e.trace)))
 	}
+	if e.mdl != nil && !c.HasMul && e.evalUnder(e.mdl, c) {
+		e.Stats.ModelHits++
+		return true, true
+	}
 	r := e.checkWith(c)
 	switch r {
 	case smt.Sat:
+		if e.lastModel != nil {
+			e.altMdl[c] = e.lastModel
+			if e.mdl == nil {
+				// also a model of the current path condition
+				e.mdl = e.lastModel
+			}
+			e.lastModel = nil
+		}
 		return true, true
 	case smt.Unsat:
 		return false, true
@@ -603,8 +639,30 @@ func (e *Engine) checkWith(c *term.Term) smt.Result {
 			}
 		}
 	}
+	e.lastModel = nil
 	if !mul {
-		r := e.S.CheckWith(c)
+		e.S.Push()
+		e.S.Assert(c)
+		r := e.S.Check()
+		if r == smt.Sat {
+			// fetch the model: it lets later feasibility questions be answered by evaluation
+			var ts []*term.Term
+			for _, n := range e.nondets {
+				if n.isSym {
+					ts = append(ts, n.t)
+				}
+			}
+			if len(ts) <= 64 {
+				if vals, err := e.S.Values(ts); err == nil {
+					m := make(map[string]uint64, len(ts))
+					for t, v := range vals {
+						m[t.Name] = v
+					}
+					e.lastModel = m
+				}
+			}
+		}
+		e.S.Pop()
 		if r != smt.Unknown {
 			return r
 		}
@@ -679,6 +737,9 @@ func (e *Engine) fork(alts []*term.Term) int {
 	}
 	if len(feas) > 1 {
 		e.Stats.Forks++
+		if e.Stats.ForkSites != nil {
+			e.Stats.ForkSites[e.where()]++
+		}
 	}
 	e.trace = append(e.trace, decision{n: len(feas), alts: feas, kind: 'f'})
 	ch := int(feas[0])
@@ -731,6 +792,9 @@ func (e *Engine) branch(c *term.Term) bool {
 	}
 	if len(feas) > 1 {
 		e.Stats.Forks++
+		if e.Stats.ForkSites != nil {
+			e.Stats.ForkSites[e.where()]++
+		}
 	}
 	e.trace = append(e.trace, decision{n: len(feas), alts: feas, kind: 'f'})
 	con := c
@@ -797,6 +861,9 @@ func (e *Engine) choose(lo, hi int) int {
 		alts = append(alts, uint64(int64(i)))
 	}
 	e.Stats.Forks++
+	if e.Stats.ForkSites != nil {
+		e.Stats.ForkSites[e.where()+" (choose)"]++
+	}
 	e.trace = append(e.trace, decision{n: len(alts), alts: alts, kind: 'k'})
 	e.assertDecision(e.tpos, term.True)
 	e.tpos++
@@ -881,6 +948,9 @@ func (e *Engine) concretizeNoBound(t *term.Term, signed bool, what string) int64
 	sort.Slice(vals, func(i, j int) bool { return vals[i] < vals[j] })
 	if len(vals) > 1 {
 		e.Stats.Forks++
+		if e.Stats.ForkSites != nil {
+			e.Stats.ForkSites[e.where()+" (concretize "+what+")"]++
+		}
 	}
 	e.trace = append(e.trace, decision{n: len(vals), alts: vals, kind: 'c'})
 	c := term.Eq(t, term.Const(t.W, vals[0]))
